@@ -75,6 +75,41 @@ type c19Recorder struct {
 	mu    sync.Mutex
 	calls []any
 	specs []connect.Spec
+	// plain: the recovery function returns an uncoded error (errors.New), as
+	// the documentation allows; returned / seen: the values it returned and
+	// the values an interceptor outside WithRecover saw coming back.
+	plain    bool
+	returned []error
+	seen     []error
+}
+
+// seeIcept sits outside the recovery interceptor and records the error
+// values that come back through it.
+type seeIcept struct{ rec *c19Recorder }
+
+func (i seeIcept) note(err error) {
+	if err != nil {
+		i.rec.mu.Lock()
+		i.rec.seen = append(i.rec.seen, err)
+		i.rec.mu.Unlock()
+	}
+}
+func (i seeIcept) WrapUnary(next connect.UnaryFunc) connect.UnaryFunc {
+	return func(ctx context.Context, req connect.AnyRequest) (connect.AnyResponse, error) {
+		res, err := next(ctx, req)
+		i.note(err)
+		return res, err
+	}
+}
+func (i seeIcept) WrapStreamingClient(next connect.StreamingClientFunc) connect.StreamingClientFunc {
+	return next
+}
+func (i seeIcept) WrapStreamingHandler(next connect.StreamingHandlerFunc) connect.StreamingHandlerFunc {
+	return func(ctx context.Context, conn connect.StreamingHandlerConn) error {
+		err := next(ctx, conn)
+		i.note(err)
+		return err
+	}
 }
 
 func (r *c19Recorder) handle(_ context.Context, spec connect.Spec, _ http.Header, v any) error {
@@ -82,6 +117,12 @@ func (r *c19Recorder) handle(_ context.Context, spec connect.Spec, _ http.Header
 	r.calls = append(r.calls, v)
 	r.specs = append(r.specs, spec)
 	n := len(r.calls)
+	if r.plain {
+		e := fmt.Errorf("recovered #%d plain", n)
+		r.returned = append(r.returned, e)
+		r.mu.Unlock()
+		return e
+	}
 	r.mu.Unlock()
 	ce := connect.NewError(connect.CodeDataLoss, fmt.Errorf("recovered #%d", n))
 	if d, err := anypb.New(wrapperspb.String("from-recover")); err == nil {
@@ -100,7 +141,7 @@ func (r *c19Recorder) take() []any {
 
 // c19Layouts: where WithRecover sits among other interceptors/options.
 func c19Layouts() []string {
-	return []string{"recover-only", "recover,x,y", "x,recover,y", "x,y,recover", "opts[x],opts[recover]", "opts[x],opts[recover],opts[y]", "handleropts[x,recover]", "one-group[x,y],recover", "recover,empty", "x,recover,empty", "handleropts[recover,empty]", "empty,recover", "annotate,recover", "annotate,recover,y"}
+	return []string{"recover-only", "recover,x,y", "x,recover,y", "x,y,recover", "opts[x],opts[recover]", "opts[x],opts[recover],opts[y]", "handleropts[x,recover]", "one-group[x,y],recover", "recover,empty", "x,recover,empty", "handleropts[recover,empty]", "empty,recover", "annotate,recover", "annotate,recover,y", "see,recover-plain"}
 }
 
 type noopIcept struct{ n *int32 }
@@ -167,6 +208,9 @@ func c19Opts(layout string, rec *c19Recorder) []connect.HandlerOption {
 		return []connect.HandlerOption{connect.WithHandlerOptions(rc, connect.WithInterceptors())}
 	case "empty,recover":
 		return []connect.HandlerOption{connect.WithInterceptors(), rc}
+	case "see,recover-plain":
+		rec.plain = true
+		return []connect.HandlerOption{connect.WithInterceptors(seeIcept{rec}), rc}
 	case "annotate,recover":
 		return []connect.HandlerOption{connect.WithInterceptors(annotateIcept{}), rc}
 	case "annotate,recover,y":
@@ -283,7 +327,7 @@ func c19(run *ev.Run) int {
 					run.Violation(key+"/hang", "call did not return", trunc(dump, 20000))
 					continue
 				}
-				c19Judge(run, key, rec.take(), v, cl, sent, map[string]any{"layout": j.layout, "protocol": j.proto, "kind": j.kind.String(), "point": point, "value": v.name})
+				c19Judge(run, key, rec, rec.take(), v, cl, sent, map[string]any{"layout": j.layout, "protocol": j.proto, "kind": j.kind.String(), "point": point, "value": v.name})
 			}
 			// differential: no panic, with and without WithRecover
 			key := fmt.Sprintf("c19/loopback/%s/%s/%s/%s/no-panic", j.layout, j.proto, j.kind, point)
@@ -329,7 +373,7 @@ func sameValue(a, b any) bool {
 	return reflect.DeepEqual(a, b)
 }
 
-func c19Judge(run *ev.Run, key string, calls []any, v c19Value, cl *svc.CLog, sent []*gen.Msg, detail map[string]any) {
+func c19Judge(run *ev.Run, key string, rec *c19Recorder, calls []any, v c19Value, cl *svc.CLog, sent []*gen.Msg, detail map[string]any) {
 	detail["recover_calls"] = len(calls)
 	detail["client_err"] = errStr(cl.Err)
 	detail["client_msgs"] = gen.DescribeSeq(cl.Msgs)
@@ -352,6 +396,29 @@ func c19Judge(run *ev.Run, key string, calls []any, v c19Value, cl *svc.CLog, se
 	var ce *connect.Error
 	if !errors.As(cl.Err, &ce) {
 		run.Violation(key+"/client", "client did not receive an error for a panicking handler: "+errStr(cl.Err), detail)
+		return
+	}
+	if rec.plain {
+		// an uncoded error from the recovery function reaches the interceptors
+		// outside WithRecover as the very value it returned, and the client as
+		// unknown with its text
+		rec.mu.Lock()
+		var ret, saw error
+		if len(rec.returned) > 0 {
+			ret = rec.returned[len(rec.returned)-1]
+		}
+		if len(rec.seen) > 0 {
+			saw = rec.seen[len(rec.seen)-1]
+		}
+		rec.mu.Unlock()
+		run.Count("recovered.error_identity.checked", 1)
+		if ret == nil || saw != ret {
+			run.Violation(key+"/outer-interceptor-error", fmt.Sprintf("the interceptor outside WithRecover saw %T %q, the recovery function returned %T %q (not the same value)", saw, errStr(saw), ret, errStr(ret)), detail)
+			return
+		}
+		if ce.Code() != connect.CodeUnknown || ce.Message() != "recovered #1 plain" {
+			run.Violation(key+"/client-error", fmt.Sprintf("client received %v, recovery function returned the uncoded error \"recovered #1 plain\"", cl.Err), detail)
+		}
 		return
 	}
 	if ce.Code() != connect.CodeDataLoss || ce.Message() != "recovered #1" || len(ce.Details()) != 1 {
@@ -439,7 +506,7 @@ func c19RealLayout(run *ev.Run, values []c19Value, layout string) {
 							run.Violation(key+"/hang", "call did not return", trunc(dump, 20000))
 							continue
 						}
-						c19Judge(run, key, rec.take(), v, cl, sent, map[string]any{"layout": layout, "transport": fmt.Sprintf("real h2=%v", h2), "protocol": protocol, "kind": kind.String(), "point": point, "value": v.name})
+						c19Judge(run, key, rec, rec.take(), v, cl, sent, map[string]any{"layout": layout, "transport": fmt.Sprintf("real h2=%v", h2), "protocol": protocol, "kind": kind.String(), "point": point, "value": v.name})
 					}
 				}
 			}
@@ -741,7 +808,7 @@ func c19Forwarding(run *ev.Run, values []c19Value) {
 					run.Violation(key+"/hang", "call did not return", trunc(dump, 20000))
 					continue
 				}
-				c19Judge(run, key, rec.take(), v, cl, nil, map[string]any{"protocol": protocol, "upstream_protocol": upProto, "value": v.name, "handler": "forwards its request to another client, then panics"})
+				c19Judge(run, key, rec, rec.take(), v, cl, nil, map[string]any{"protocol": protocol, "upstream_protocol": upProto, "value": v.name, "handler": "forwards its request to another client, then panics"})
 			}
 		}
 	}
@@ -800,7 +867,7 @@ func c19SharedOption(run *ev.Run) {
 								map[string]any{"protocol": protocol, "kind": kind.String(), "client_err": errStr(cl.Err)})
 						}
 					}
-					c19Judge(run, fmt.Sprintf("%s/handler=%d", key, i), recs[i].take(), v, cl, sent, map[string]any{"protocol": protocol, "kind": kind.String(), "handler_index": i, "option_lists": "WithRecover(own), shared WithInterceptors value"})
+					c19Judge(run, fmt.Sprintf("%s/handler=%d", key, i), recs[i], recs[i].take(), v, cl, sent, map[string]any{"protocol": protocol, "kind": kind.String(), "handler_index": i, "option_lists": "WithRecover(own), shared WithInterceptors value"})
 				}
 			}
 		}
